@@ -392,3 +392,62 @@ package saml
 
 //@ contract (*InvalidResponseError).Error
 //@ ensures[C09] constant: result == "Authentication failed"
+
+//@ -- ------------------------------------------------------------------------------------------
+//@ -- IdP: C05 (valid requests, registered endpoints), C06 (scoped, signed responses), C08 (encryption)
+//@ import http "net/http"
+
+//@ ghost func RegistryHas(p ServiceProviderProvider, id string, md *EntityDescriptor) bool
+//@ go func registeredACS(req *IdpAuthnRequest) bool {
+//@    return req.ACSEndpoint != nil && req.ServiceProviderMetadata != nil &&
+//@      exists(0, len(req.ServiceProviderMetadata.SPSSODescriptors), func(d int) bool {
+//@        return exists(0, len(req.ServiceProviderMetadata.SPSSODescriptors[d].AssertionConsumerServices), func(e int) bool {
+//@          return req.ServiceProviderMetadata.SPSSODescriptors[d].AssertionConsumerServices[e] == *req.ACSEndpoint }) }) }
+
+//@ contract (*IdentityProvider).Metadata
+//@ requires[cfg] cert: idp.Certificate != nil
+//@ requires[cfg] clock: TimeNow != nil
+//@ ensures[C05,C06] shape: result != nil && len(result.IDPSSODescriptors) == 1 && result.IDPSSODescriptors[0].WantAuthnRequestsSigned == nil
+//@ ensures[C06] entity: result.EntityID == idp.MetadataURL.String()
+
+//@ contract (*IdpAuthnRequest).getACSEndpoint
+//@ requires[cfg] md: req.ServiceProviderMetadata != nil
+//@ -- the selected endpoint is one of the registered provider's assertion consumer services, never a request-only location
+//@ ensures[C05] registered: err == nil ==> registeredACS(req)
+//@ ensures[C05] descriptor: err == nil ==> req.SPSSODescriptor != nil
+//@ ensures[C05] index_honoured: err == nil && req.Request.AssertionConsumerServiceIndex == "" && req.Request.AssertionConsumerServiceURL != "" ==>
+//@    req.ACSEndpoint.Location == req.Request.AssertionConsumerServiceURL
+//@ ensures[C05] default_binding: err == nil && req.Request.AssertionConsumerServiceIndex == "" && req.Request.AssertionConsumerServiceURL == "" ==>
+//@    req.ACSEndpoint.Binding == HTTPPostBinding || req.ACSEndpoint.Binding == HTTPRedirectBinding
+//@ ensures[C05] errkind: err != nil ==> err == os.ErrNotExist
+
+//@ contract (*IdpAuthnRequest).Validate
+//@ requires[cfg] idp: req.IDP != nil && req.IDP.Certificate != nil && req.IDP.ServiceProviderProvider != nil
+//@ requires[cfg] clock: TimeNow != nil
+//@ ensures[C05] fresh: err == nil ==> ns(req.Now) <= ns(req.Request.IssueInstant)+int64(MaxIssueDelay)
+//@ ensures[C05] version: err == nil ==> req.Request.Version == "2.0"
+//@ ensures[C05] destination: err == nil ==> req.Request.Destination == "" || req.Request.Destination == req.IDP.SSOURL.String()
+//@ ensures[C05] known_sp: err == nil ==> req.Request.Issuer != nil &&
+//@    RegistryHas(req.IDP.ServiceProviderProvider, req.Request.Issuer.Value, req.ServiceProviderMetadata)
+//@ ensures[C05] registered: err == nil ==> registeredACS(req)
+//@ ensures[C05,C06] descriptor: err == nil ==> req.SPSSODescriptor != nil
+
+//@ contract (*IdpAuthnRequest).getSPEncryptionCert
+//@ requires[cfg] d: req.SPSSODescriptor != nil
+//@ ensures[C08,C09] nonnil: err == nil ==> result != nil
+//@ -- os.ErrNotExist (the only outcome that lets the assertion leave in clear) means: no usable key descriptor
+//@ ensures[C08] plaintext_only_without_key: err == os.ErrNotExist ==>
+//@    forall(0, len(req.SPSSODescriptor.KeyDescriptors), func(k int) bool {
+//@      return !((req.SPSSODescriptor.KeyDescriptors[k].Use == "encryption" || req.SPSSODescriptor.KeyDescriptors[k].Use == "") &&
+//@        len(req.SPSSODescriptor.KeyDescriptors[k].KeyInfo.X509Data.X509Certificates) != 0 &&
+//@        req.SPSSODescriptor.KeyDescriptors[k].KeyInfo.X509Data.X509Certificates[0].Data != "") })
+//@ loop 1 vars certStr string
+//@ invariant[C08] none_so_far: certStr == "" && forall(0, iter, func(k int) bool {
+//@      return !(req.SPSSODescriptor.KeyDescriptors[k].Use == "encryption" &&
+//@        len(req.SPSSODescriptor.KeyDescriptors[k].KeyInfo.X509Data.X509Certificates) != 0 &&
+//@        req.SPSSODescriptor.KeyDescriptors[k].KeyInfo.X509Data.X509Certificates[0].Data != "") })
+//@ loop 2 vars certStr string
+//@ invariant[C08] none_so_far2: certStr == "" && forall(0, iter, func(k int) bool {
+//@      return !(req.SPSSODescriptor.KeyDescriptors[k].Use == "" &&
+//@        len(req.SPSSODescriptor.KeyDescriptors[k].KeyInfo.X509Data.X509Certificates) != 0 &&
+//@        req.SPSSODescriptor.KeyDescriptors[k].KeyInfo.X509Data.X509Certificates[0].Data != "") })
